@@ -304,6 +304,7 @@ struct InclResult {
 	TreeP witness;          // a tree in L(A) \ L(B) when verdict == NO
 	size_t pairs = 0;       // explored (state, macro-state) pairs
 	size_t max_macro_per_state = 0; // max number of distinct macro-states met for one A-state
+	std::map<int,size_t> macros_per_state;   // A-state -> number of distinct macro-states explored (also on NO / UNKNOWN)
 };
 
 // A ⊆ B ?   Explores pairs (q, S): some tree t evaluates to q in A and to
@@ -327,6 +328,13 @@ inline InclResult included(const TA& A, const TA& B, size_t cap = 50000)
 	std::map<int, std::vector<size_t>> byState;
 
 	bool refuted = false;
+	auto finish = [&]() {
+		res.pairs = known.size();
+		for (auto& kv : byState) {
+			res.macros_per_state[kv.first] = kv.second.size();
+			res.max_macro_per_state = std::max(res.max_macro_per_state, kv.second.size());
+		}
+	};
 	auto add = [&](int q, const BS& s, TreeP t) {
 		if (refuted) return;
 		auto key = std::make_pair(q, s);
@@ -360,7 +368,7 @@ inline InclResult included(const TA& A, const TA& B, size_t cap = 50000)
 		if (!r.ch.empty()) continue;
 		TreeP t = std::make_shared<Tree>(Tree{r.sym, {}});
 		add(r.par, post(r.sym, {}), t);
-		if (refuted) { res.pairs = known.size(); return res; }
+		if (refuted) { finish(); return res; }
 	}
 
 	// rules of A indexed by child state
@@ -371,7 +379,7 @@ inline InclResult included(const TA& A, const TA& B, size_t cap = 50000)
 	}
 
 	for (size_t i = 0; i < known.size(); ++i) {
-		if (known.size() > cap) { res.verdict = Tri::UNKNOWN; res.pairs = known.size(); return res; }
+		if (known.size() > cap) { res.verdict = Tri::UNKNOWN; finish(); return res; }
 		const int q = known[i].q;
 		auto itr = aByChild.find(q);
 		if (itr == aByChild.end()) continue;
@@ -404,8 +412,8 @@ inline InclResult included(const TA& A, const TA& B, size_t cap = 50000)
 					if (!seen.count(std::make_pair(r->par, s))) {
 						TreeP t = std::make_shared<Tree>(Tree{r->sym, kids});
 						add(r->par, s, t);
-						if (refuted) { res.pairs = known.size(); return res; }
-						if (known.size() > cap) { res.verdict = Tri::UNKNOWN; res.pairs = known.size(); return res; }
+						if (refuted) { finish(); return res; }
+						if (known.size() > cap) { res.verdict = Tri::UNKNOWN; finish(); return res; }
 					}
 					size_t k = 0;
 					for (; k < n; ++k) {
@@ -418,8 +426,7 @@ inline InclResult included(const TA& A, const TA& B, size_t cap = 50000)
 		}
 	}
 	res.verdict = Tri::YES;
-	res.pairs = known.size();
-	for (auto& kv : byState) res.max_macro_per_state = std::max(res.max_macro_per_state, kv.second.size());
+	finish();
 	return res;
 }
 
